@@ -90,6 +90,11 @@ def shapes(tier):
         out.append(dict(base, initial=INITIAL + [cbA], deviations=1, explore_startup=True, script=[],
                         startup_triggers=[(('block:', 3), ('force_flush', arg))]))
     if tier == 'thorough':
+        # every quick story again with a second deviation (a postponed gate) within 14 steps of the shutdown
+        quick = [sh for sh in list(out) if sh.get('deviations') == 1]
+        out += [dict(sh, deviations=2, window=14) for sh in quick]
+        # and the first three (new block, natural reorg, forced reorg) with three deviations within 8 steps
+        out += [dict(sh, deviations=3, window=8) for sh in quick[:3]]
         out += [
             dict(base, initial=INITIAL + [cbA], deviations=2, window=8, script=[('reorg', 1, [cbB, payAB])]),
             dict(base, initial=INITIAL + [cbA], deviations=2, window=8, script=[('force_reorg', 1)]),
@@ -115,9 +120,10 @@ KERNELS = [
                   'every scheduler step (deviation 1), in one shape (thorough: four) also at every store read of a '
                   'worker job, i.e. while a block is half advanced; with a second deviation within 6..8 steps: postpone any pending '
                   'gate (including the continuation of a worker job parked at a storage operation) for a full timer '
-                  'round; remaining worker threads finish after the task returned',
+                  'round (thorough: every story with two deviations within 14 steps, three stories with three within 8); remaining '
+                  'worker threads finish after the task returned',
            outside='preemption finer than one durable storage operation (bytecode level), signals during process '
-                   'start-up before the task exists, more than two deviations',
+                   'start-up before the task exists, more than two (three) deviations',
            assumptions=['daemon, prefetch, sleeps are stubs (vlib/fullsim.py); sessions and mempool not started',
                         'worker threads not finished at exit are joined (concurrent.futures joins its threads at '
                         'interpreter exit)',
